@@ -1,20 +1,7 @@
-"""C08 - ciphers invert exactly; AES is standard with a fresh IV; bad input is rejected."""
-META = {
-    "level": "proof",
-    "externals": ["cryptography", "os.urandom", "base64", "str.encode"],
-    "trusted_base": [
-        "cryptography: AES-256-CBC encryptor/decryptor are inverse on block-aligned data and length preserving; "
-        "PKCS7(128) padder/unpadder are inverse, padded length is a positive multiple of 16; finalize() raises ValueError "
-        "on unaligned data / bad padding (pyvc/builtins_spec.py, section cryptography)",
-        "os.urandom(n) returns n bytes: the next draw of an external random stream; distinct draws differ only with "
-        "overwhelming probability (stated, not proved): 'equal plaintexts never give equal ciphertexts' is reduced to 'a fresh draw per call'",
-        "'a different key never yields the plaintext' is a cryptographic claim about AES, reduced to 'the key is passed verbatim to the cipher'",
-        "sequence extensionality is instantiated through the Skolem function seq_diff (contracts/a_specs.py: bytes_equal)",
-    ],
-    "assumptions": ["machine integers: Python ints are unbounded, the encoding uses mathematical integers; bytes are sequences of 8-bit vectors"],
-    "explanation": "XorProvider.encrypt's loop is verified with an inductive invariant over the real AST (bit-vector XOR); AES against the "
-                   "assumed library contract; inversion is a lemma over the two contracts (props/lemmas/c08.py).",
-}
+"""C08 - claim and bounded driver; statement in properties.jsonl, design in DESIGN.md section 7."""
+from props.meta import META as _M
+
+META = _M["C08"]
 
 try:
     from props.C08_rac import rac, replay   # bounded run-time contract driver (stand-in + replay harness)
